@@ -165,7 +165,20 @@ def run_case(case):
                     if edit == "unsupported_calc":
                         calls = [(o, lambda kw: rel.with_calculated_column(T(free[0]), exprs.elib(bad_e), **kw)) for o in combos]
                     elif edit == "unsupported_sel":
-                        calls = [(o, lambda kw: rel.with_rows_satisfying(exprs.plib(bad_p), **kw)) for o in combos]
+                        tgt = rel
+                        if nest >= 0.35 and nest < 0.6:
+                            # the unsupported term comes after an equal-looking supported one (equality
+                            # of expressions ignores the engine restriction): stacked on a selection
+                            # that holds the supported twin, or next to it in one conjunction
+                            ok_p = ["cmp", "lt", ["ref", some], ["lit", 1]]
+                            if nest < 0.5:
+                                try:
+                                    tgt = rel.with_rows_satisfying(exprs.plib(ok_p))
+                                except R.RelationalAlgebraError:
+                                    tgt = rel
+                            else:
+                                bad_p = ["and", [ok_p, bad_p], rng.choice(["factory", "ctor"])]
+                        calls = [(o, lambda kw, tgt=tgt, bad_p=bad_p: tgt.with_rows_satisfying(exprs.plib(bad_p), **kw)) for o in combos]
                     else:
                         calls = [(o, lambda kw: rel.sorted([R.SortTerm(exprs.elib(bad_e))], **kw)) for o in combos]
                 elif edit == "join_min_columns":
